@@ -350,9 +350,6 @@ class Sym:
     def __int__(s):
         raise Unsupported("builtin int() of a symbolic number")
 
-    def __index__(s):
-        raise Unsupported("symbolic number used as an index")
-
     @property
     def numerator(s):
         raise Unsupported("numerator of a symbolic rational")
